@@ -487,7 +487,16 @@ func runBuf(c *ctx) {
 				if mixed && q == 1 {
 					qfi = uint8([]int{9, 63, 1, 33}[r.intn(4)])
 				}
-				ies = append(ies, ie.NewCreateQER(ie.NewQERID(uint32(q)), ie.NewGateStatus(0, 0), ie.NewQFI(qfi)))
+				qies := []*ie.IE{ie.NewQERID(uint32(q)), ie.NewGateStatus(0, 0), ie.NewQFI(qfi)}
+				// the other optional marking IEs of a QER (paging policy indicator, reflective QoS): nothing of them belongs
+				// into the re-injected G-PDU, whose container carries the QFI and nothing else
+				if r.chance(40) {
+					qies = append(qies, ie.NewPagingPolicyIndicator(uint8(1+r.intn(7))))
+				}
+				if r.chance(20) {
+					qies = append(qies, ie.NewRQI(1))
+				}
+				ies = append(ies, ie.NewCreateQER(qies...))
 				qerT = append(qerT, fmt.Sprintf("%d:%d", q, qfi))
 			}
 			np := 1 + r.intn(3)
